@@ -11,7 +11,7 @@ MANIFEST = {
             'with every skip_nodes subset / insertion order on 3 nodes, against a brute-force enumeration. Every workbook of 3 mutually referring cells whose 9 edges '
             'are each absent / direct / IF-guarded (3^9 x 2 guard values = 39366) plus range, name, IFERROR- and IFS-guarded edge forms as deviations is loaded with '
             'circular handling and calculated under a watchdog; every cell, three dependents (arithmetic, IFERROR, ISERROR) and an independent chain are compared with '
-            'a lazy evaluation-stack oracle; cycle-list order, rotations, dict order and real hash seeds are permuted.',
+            'a lazy evaluation-stack oracle; cycle-list order, rotations, dict order and real hash seeds are permuted.' ' Later additions: the stored spellings _xlfn.IFNA / _xlfn.IFS as edge forms, IFS with the back reference in a later test (always an edge) or in the last value (lazy), cycles through ranges with bystander cells.',
     'note': 'Trusted: the lazy stack oracle in this file (a cell re-entered while on the evaluation stack is on an unavoidable cycle; only selected branches are evaluated). '
             'Dependents of circular cells must be error values (which error is not fixed).',
 }
